@@ -178,7 +178,12 @@ func runPrefixHistory(c *Ctx, hi int, pl pfxPool, nmsgs int, script []pfxScript)
 	}
 	duids := []dhcpv6.DUID{}
 	for i := 0; i < ncl; i++ {
-		duids = append(duids, &dhcpv6.DUIDLL{HWType: iana.HWTypeEthernet, LinkLayerAddr: net.HardwareAddr{2, 0, 0, 0, byte(hi), byte(i)}})
+		switch {
+		case i >= 2 && i%4 >= 2: // the link-layer address of client 0 under two hardware types without a registered name
+			duids = append(duids, &dhcpv6.DUIDLL{HWType: iana.HWType(198 + i%4), LinkLayerAddr: net.HardwareAddr{2, 0, 0, 0, byte(hi), 0}})
+		default:
+			duids = append(duids, &dhcpv6.DUIDLL{HWType: iana.HWTypeEthernet, LinkLayerAddr: net.HardwareAddr{2, 0, 0, 0, byte(hi), byte(i)}})
+		}
 	}
 	held := make([]map[pfxKey]bool, ncl) // what replies told each client it holds
 	for i := range held {
